@@ -50,6 +50,8 @@ func factList(fs []fact) []string {
 
 func checkC04(c *Ctx, r *Report) {
 	r.Decided = []string{
+		"R6 parsed max-age seconds are bounded (<= MaxInt64/1e9) on every path before the multiplication that turns them into a Duration, so a positive max-age cannot wrap to a negative / tiny lifetime",
+		"R7 HTTP dates in package headers are parsed with net/http.ParseTime (IMF-fixdate, RFC 850 and asctime), not with a single layout",
 		"R1 every store into the cache from package proxy is dominated by shouldResponseBeCached()==true, and that predicate is exactly ShouldCache(live ignore_cache_control) ∧ StatusCode==200 ∧ Method==GET (no conjunct missing, none added)",
 		"R2 ShouldCache: every refusal is gated by ignore_cache_control==false (except the Range guard) and refusals exist for the no-cache flag, max-age<1 and a past Expires (Expires only without a positive max-age)",
 		"R3 the directive table of parseCacheControl contains no-store, no-cache and private, compared after a case fold; the parser receives all Cache-Control lines; a parse failure leaves the header 'present, not storable'",
@@ -158,6 +160,7 @@ func checkC04(c *Ctx, r *Report) {
 
 	// ---- R3 directive table
 	table := map[string]bool{}
+	qualified := map[string]bool{} // directive -> its argument form (name=...) is recognised too
 	folded := true
 	var tablePos string
 	for _, f := range li.Fns {
@@ -199,6 +202,27 @@ func checkC04(c *Ctx, r *Report) {
 					// reachable from the true edge without passing another test's false... accept
 					table[lit] = true
 					tablePos = c.InstrPos(st)
+					// is the value compared the directive's NAME (text before "="), so that private="Set-Cookie" is private?
+					if derivesFrom(other, func(v ssa.Value) bool {
+						c2, ok := v.(*ssa.Call)
+						if !ok {
+							return false
+						}
+						switch calleeName(c2) {
+						case "strings.Cut", "strings.SplitN", "strings.Split", "strings.Index", "strings.IndexByte":
+							for _, a := range c2.Call.Args[1:] {
+								if sep, ok := constString(a); ok && sep == "=" {
+									return true
+								}
+								if k, ok := constInt(a); ok && k == '=' {
+									return true
+								}
+							}
+						}
+						return false
+					}) {
+						qualified[lit] = true
+					}
 					if !callsInDerivation(other)["strings.ToLower"] && !callsInDerivation(other)["strings.ToUpper"] {
 						folded = false
 					}
@@ -206,11 +230,59 @@ func checkC04(c *Ctx, r *Report) {
 			}
 		})
 	}
+	// argument forms recognised by a prefix test (strings.HasPrefix / CutPrefix(directive, "private=")) that leads to the flag
+	for _, f := range li.Fns {
+		if !strings.HasPrefix(fnKey(f), headersPkg+".parseCacheControl") {
+			continue
+		}
+		var flagStores []ssa.Instruction
+		eachInstr(f, func(in ssa.Instruction) {
+			if st, ok := in.(*ssa.Store); ok {
+				if fv, _, is := fieldOf(st.Addr); is && fv.Name() == "noCache" {
+					if b, isC := constBool(st.Val); isC && b {
+						flagStores = append(flagStores, in)
+					}
+				}
+			}
+		})
+		for _, b := range f.Blocks {
+			iff, ok := b.Instrs[len(b.Instrs)-1].(*ssa.If)
+			if !ok {
+				continue
+			}
+			cv, positive := stripNot(iff.Cond)
+			var call *ssa.Call
+			if ex, isEx := cv.(*ssa.Extract); isEx {
+				call, _ = ex.Tuple.(*ssa.Call)
+			} else {
+				call, _ = cv.(*ssa.Call)
+			}
+			if call == nil || (calleeName(call) != "strings.HasPrefix" && calleeName(call) != "strings.CutPrefix") {
+				continue
+			}
+			pfx, isC := constString(call.Call.Args[1])
+			if !isC || !strings.HasSuffix(pfx, "=") {
+				continue
+			}
+			idx := 0
+			if !positive {
+				idx = 1
+			}
+			for _, fsIn := range flagStores {
+				if len(walkFrom(pos{b.Succs[idx], 0}, nil, isInstr(fsIn), nil)) > 0 {
+					qualified[strings.TrimSuffix(pfx, "=")] = true
+				}
+			}
+		}
+	}
 	var names []string
 	for k := range table {
 		names = append(names, k)
 	}
 	sort.Strings(names)
+	for _, want := range []string{"no-cache", "private"} {
+		r.Check(qualified[want], "C04.R3", "the argument form "+want+"=\"field\" is "+want, tablePos, "the name before '=' is what is compared (or a prefix test sets the flag)", "the Cache-Control parser recognises '"+want+"' only as a bare word: a response marked "+want+"=\"Set-Cookie\" is stored and replayed to other clients, including the very field the origin singled out")
+	}
 	for _, want := range []string{"no-store", "no-cache", "private"} {
 		r.Check(table[want], "C04.R3", "directive table contains "+want, tablePos, "sets the non-storable flag", "the Cache-Control parser does not treat '"+want+"' as non-storable (table: "+strings.Join(names, ",")+")")
 	}
@@ -257,6 +329,128 @@ func checkC04(c *Ctx, r *Report) {
 		})
 		r.Check(okFail, "C04.R3", "unparseable Cache-Control is not treated as absent", c.InstrPos(pc), "the failure edge stores a non-storable CacheControl", "when parseCacheControl fails the header counts as absent, so 'no-store, max-age=abc' is stored with the default lifetime")
 	}
+
+	// ---- R6: a positive max-age stays positive. Seconds parsed from the header are turned into a time.Duration by a
+	// multiplication with 1e9; without an upper bound on the seconds the product wraps (max-age=31536000000, a year in
+	// milliseconds, becomes negative => treated as max-age<1 => not stored; 18446744074 becomes 0.29s).
+	nMul := 0
+	for _, f := range li.Fns {
+		if !strings.HasPrefix(fnKey(f), headersPkg+".parseCacheControl") {
+			continue
+		}
+		eachInstr(f, func(in ssa.Instruction) {
+			bo, ok := in.(*ssa.BinOp)
+			if !ok || bo.Op != token.MUL {
+				return
+			}
+			k, isC := constInt(bo.Y)
+			x := bo.X
+			if !isC {
+				k, isC = constInt(bo.X)
+				x = bo.Y
+			}
+			if !isC || k < 1000 {
+				return
+			}
+			fromParse := derivesFrom(x, func(v ssa.Value) bool {
+				c2, ok := v.(*ssa.Call)
+				return ok && (calleeName(c2) == "strconv.ParseInt" || calleeName(c2) == "strconv.ParseUint" || calleeName(c2) == "strconv.Atoi")
+			})
+			if !fromParse {
+				return
+			}
+			nMul++
+			// an upper bound on the operand: a dominating fact  x > K = false  /  x <= K  /  x < K  with K*k within int64,
+			// or the operand is the result of min(x, K)
+			bounded := false
+			limit := int64(9223372036854775807) / k
+			xs := atomStr(unconvNum(x))
+			for kf := range factStrs(f, in) {
+				// canonical forms from normAtom: "<x>>K=false"
+				if strings.HasPrefix(kf, xs+">") && strings.HasSuffix(kf, "=false") {
+					var kk int64
+					if _, err := fmt.Sscanf(strings.TrimSuffix(strings.TrimPrefix(kf, xs+">"), "=false"), "%d", &kk); err == nil && kk <= limit {
+						bounded = true
+					}
+				}
+			}
+			if c2, ok := unconvNum(x).(*ssa.Call); ok {
+				if b, isB := c2.Call.Value.(*ssa.Builtin); isB && b.Name() == "min" {
+					for _, a := range c2.Call.Args {
+						if kk, isK := constInt(a); isK && kk <= limit {
+							bounded = true
+						}
+					}
+				}
+			}
+			// the operand may be a phi that is clamped on one edge: accept a phi all of whose non-constant edges are bounded by facts
+			if phi, ok := unconvNum(x).(*ssa.Phi); ok && !bounded {
+				all := len(phi.Edges) > 0
+				for i, e := range phi.Edges {
+					if kk, isK := constInt(e); isK {
+						if kk > limit {
+							all = false
+						}
+						continue
+					}
+					pred := phi.Block().Preds[i]
+					es := atomStr(unconvNum(e))
+					okE := false
+					for kf := range factStrs(f, pred.Instrs[len(pred.Instrs)-1]) {
+						if strings.HasPrefix(kf, es+">") && strings.HasSuffix(kf, "=false") {
+							var kk int64
+							if _, err := fmt.Sscanf(strings.TrimSuffix(strings.TrimPrefix(kf, es+">"), "=false"), "%d", &kk); err == nil && kk <= limit {
+								okE = true
+							}
+						}
+					}
+					// the edge itself may be the bounded side of the test that ends the predecessor block
+					if iff, isIf := pred.Instrs[len(pred.Instrs)-1].(*ssa.If); isIf && !okE {
+						if a, pos := normAtom(iff.Cond, nil); strings.HasPrefix(a, es+">") {
+							var kk int64
+							if _, err := fmt.Sscanf(strings.TrimPrefix(a, es+">"), "%d", &kk); err == nil && kk <= limit {
+								// edge index 0 = condition true; bounded when (x>K) is false on this edge
+								for si, sc := range pred.Succs {
+									if sc == phi.Block() && ((si == 0) == pos) == false {
+										okE = true
+									}
+								}
+							}
+						}
+					}
+					if !okE {
+						all = false
+					}
+				}
+				bounded = all
+			}
+			r.Check(bounded, "C04.R6", fmt.Sprintf("%s: seconds are bounded before they are scaled to a Duration (#%d)", fnKey(f), nMul), c.InstrPos(in), fmt.Sprintf("operand <= %d on every path", limit), fmt.Sprintf("the parsed max-age is multiplied by %d without an upper bound: values above %d seconds wrap around (a large positive max-age becomes negative or tiny, and the response is not stored or goes stale at once)", k, limit))
+		})
+	}
+	r.Floor("C04.R6", nMul, 1, "seconds-to-Duration conversions in the Cache-Control parser")
+
+	// ---- R7: HTTP dates are read in all three formats an HTTP recipient must accept (IMF-fixdate, RFC 850, asctime):
+	// a future Expires in an obsolete format is "no past Expires", not an unparseable one
+	nDate := 0
+	for _, f := range li.Fns {
+		if originPkgPath(f) != headersPkg {
+			continue
+		}
+		eachCall(f, func(call ssa.CallInstruction, n string) {
+			if n != "time.Parse" && n != "net/http.ParseTime" {
+				return
+			}
+			nDate++
+			key := fmt.Sprintf("%s: date header parse #%d", fnKey(f), nDate)
+			if n == "net/http.ParseTime" {
+				r.Ok("C04.R7", key, c.InstrPos(call), "http.ParseTime (all three HTTP-date formats)")
+				return
+			}
+			layout, _ := constString(call.Common().Args[0])
+			r.Fail("C04.R7", key, c.InstrPos(call), fmt.Sprintf("an HTTP date is parsed with the single layout %q: an Expires in the RFC 850 or asctime format (which recipients must accept) counts as unparseable, i.e. already expired, and a response that is fresh for an hour is never stored", layout))
+		})
+	}
+	r.Floor("C04.R7", nDate, 1, "HTTP-date parses in package headers")
 
 	// ---- R4
 	for _, f := range c.FuncsNamed("(*" + proxyPkg + ".fetcher).handleUpstreamResponse") {
